@@ -80,6 +80,8 @@ CHECKS = {
                  {"name": "VerifC03HWWriters", "quick": {"msgs": 3, "preemptions": 1}, "thorough": {"msgs": 4, "preemptions": 1},
                   "replay": "interpreted", "max-paths": 1000000,
                   "covers": ["done"], "targets": ["commitLog).SetHighWatermark", "commitLog).notifyHWChange", "committedReader).Read"]},
+                 {"name": "VerifC03HWCheckpointRestored", "quick": {"msgs": 3}, "thorough": {"msgs": 4}, "replay": "interpreted",
+                  "covers": ["done", "several-segments"], "targets": ["commitLog).checkpointHW", "commitLog).open", "committedReader).Read"]},
                  {"name": "VerifC03ReaderStartsDuringAdvance", "quick": {"msgs": 3, "preemptions": 1}, "thorough": {"msgs": 4, "preemptions": 2},
                   "replay": "interpreted", "max-paths": 1000000,
                   "covers": ["done", "several-segments"], "targets": ["commitLog).NewReader", "commitLog).SetHighWatermark", "committedReader).Read"]},
@@ -305,8 +307,9 @@ CHECKS = {
                         "crypto/rand is a fixed byte pattern"],
         "groups": [
             {"pkg": "./server/encryption", "overlay": "encryption", "pkgname": "encryption",
-             "env": {"VERIF_MASTER_KEY": "0123456789abcdef0123456789abcdef"},
+             "env": {"VERIF_MASTER_KEY": "0123456789abcdef0123456789abcdef", "LIFTBRIDGE_ENCRYPTION_KEY": "0123456789abcdefFEDCBA9876543210"},
              "harnesses": [
+                 {"name": "VerifC17MasterKeyWhole", "replay": "interpreted", "covers": ["done"], "targets": ["NewLocalEncryptionHandler"]},
                  {"name": "VerifC17RoundTrip", "quick": {"maxlen": 32}, "thorough": {"maxlen": 64}, "covers": ["done"], "targets": ["LocalEncryptionHandler).Seal", "LocalEncryptionHandler).Read"]},
                  {"name": "VerifC17Batch", "quick": {"maxlen": 4}, "thorough": {"maxlen": 8}, "covers": ["done"], "targets": ["LocalEncryptionHandler).Seal", "LocalEncryptionHandler).Read"]},
                  {"name": "VerifC17ReadTotal", "quick": {"maxlen": 48}, "thorough": {"maxlen": 80}, "covers": ["done", "error"], "targets": ["LocalEncryptionHandler).Read"]},
